@@ -148,6 +148,14 @@ func (r *replaceArraystrategy) evaluate(m *MethodEvaluator) error {
 		return err
 	}
 
+	// the arity error is reported in the check round only: the other rounds
+	// get here without an argument
+	if len(evaluatedArgs) == 0 {
+		m.parser.SetLastEvaluatedT(m.evaluatedObjectT)
+
+		return nil
+	}
+
 	newArrayT := evaluatedArgs[0]
 	newArrayT.SetBeforeEvaluateCode(m.evaluatedObjectT.GetBeforeEvaluateCode())
 
@@ -249,10 +257,11 @@ func (a *addArrayStrategy) evaluate(m *MethodEvaluator) error {
 	}
 
 	arrayT := m.evaluatedObjectT
-	argT := evaluatedArgs[0]
 
-	for _, variant := range argT.GetVariants() {
-		arrayT.AppendArrayVariant(variant)
+	if len(evaluatedArgs) > 0 {
+		for _, variant := range evaluatedArgs[0].GetVariants() {
+			arrayT.AppendArrayVariant(variant)
+		}
 	}
 
 	m.parser.SetLastEvaluatedT(arrayT)
